@@ -270,7 +270,7 @@ CLAIMED = {
         "run: sample 0 of trajectories for four init_state_processing values x three engines x grid/graph on random real-valued states "
         "(sub-molecule, fractional, integral, around the thresholds 12 and 100, above 100, empty cells, seeds 0 / 1 / 2^31-1): replayed "
         "EXACTLY from the seed in Coq where all amounts are below 12 (mt19937, generate_canonical, small-mean Poisson, correction loop), "
-        "checked against the stated invariants otherwise; two set-ups with the same seed must agree. String enumerations re-read from the source on every run (harness/translate_enums.py, fail-closed; Model/Enums.v, obligations in Proofs/EnumFacts.v by closed computation): every processing mode the script accepts is resolved by both initialisers to the documented action (none: keep, Poisson: draw, redist: redistribute, auto: by the engine's stochasticity), every branch transposes the amounts to cell-major order, and requires_molecules of engine_collection.py is is_stochastic of engine.cpp (C14_mode_dispatch, C14_engine_options).",
+        "checked against the stated invariants otherwise; two set-ups with the same seed must agree. String enumerations re-read from the source on every run (harness/translate_enums.py, fail-closed; Model/Enums.v, obligations in Proofs/EnumFacts.v by closed computation): every processing mode the script accepts is resolved by both initialisers to the documented action (none: keep, Poisson: draw, redist: redistribute, auto: by the engine's stochasticity), every branch transposes the amounts to cell-major order, and requires_molecules of engine_collection.py is is_stochastic of engine.cpp (C14_mode_dispatch, C14_engine_options). In a fifth of the cases a species' amounts add up exactly to an integer, or to 2^-33 below or above one (dyadic, so the sums are exact): the number of molecules is the floor of the total.",
         "Trusted: Coq kernel + VM; the hand-written model of GenerateStochasticDistribution / PoissonSample / the mode dispatch tied by "
         "replay (about 3/4 of 400 cases quick, 10000 thorough) and by invariants for amounts >= 12 (libstdc++'s large-mean Poisson and "
         "normal_distribution are not modelled); that the draws are Poisson-distributed is the library's contract; the exp enclosure "
@@ -376,7 +376,7 @@ CLAIMED = {
         "naming an environment outside [0, nenv); unknown boundary condition / axis / sampling policy / processing mode; empty environment "
         "list and 'default'; positions outside grids and graphs through six accessors; unknown species; invalid coarse-graining maps. "
         "Which inputs are invalid is computed by `invalid` (Model/AcceptC20.v) from the models of C05/C06/C12/C15/C16/C18; the package must "
-        "raise exactly on those and leave state and chemostat map untouched. String enumerations re-read from the source on every run (harness/translate_enums.py, fail-closed; Model/Enums.v, obligations in Proofs/EnumFacts.v by closed computation): what the validators accept - sampling policies, processing modes, axes, boundary conditions, look-up policies - is what the documentation lists, no more and no less (C20_validators_agree); the correspondence draws look-up policies too (finding F21). Wrong dimensions are also given as quantity objects: one entry of a per-environment dictionary (species D and density, reaction constants; constructor and setter), script times, node volumes, edge surfaces and distances.",
+        "raise exactly on those and leave state and chemostat map untouched. String enumerations re-read from the source on every run (harness/translate_enums.py, fail-closed; Model/Enums.v, obligations in Proofs/EnumFacts.v by closed computation): what the validators accept - sampling policies, processing modes, axes, boundary conditions, look-up policies - is what the documentation lists, no more and no less (C20_validators_agree); the correspondence draws look-up policies too (finding F21). Wrong dimensions are also given as quantity objects: one entry of a per-environment dictionary (species D and density, reaction constants; constructor and setter), script times, node volumes, edge surfaces and distances. A species that was known - looked up by label, then removed from the network's species list - must be unknown afterwards.",
         "Trusted: Coq kernel + VM; `invalid` for the classes that are plain range / membership tests (sizes, environment maps and names, "
         "choices, graph positions, species references) is the specification itself, read off the statement; sampled injection sites; "
         "get_species_index returning None (documented) counts as a rejection; the translator harness/translate_enums.py (Python ast for the validators' membership tests and engine_collection.py; regular expressions over comment-free engine.cpp / *Base.hpp for the CompareStr chains and the SamplingStep switch; any other shape is an error); the Python harness.",
